@@ -404,6 +404,7 @@ def search(ctx):
                     f"{j['labels'][pos - 1] if pos else '-'} differs from the same document published with a fresh settings object")
             ctx.fail(sig, {"kind": "history", "history": [hist]}, what, expected={"doc": f["doc"][-1500:], "warn": f["warn"][:500]},
                      observed={"doc": out["doc"][-1500:], "warn": out["warn"][:500]})
+    search_settings_values(ctx, c15_items)
     fresh = {}
     for m, r in zip(meta, res):
         if m[0] == "fresh":
@@ -442,6 +443,44 @@ def search(ctx):
         ctx.sample({"item": i, "text": by_id[i]["text"][:200], "settings": by_id[i]["settings"]})
     ctx.sample({"history_example": meta[-1][1][:8]})
     search_sphinx(ctx)
+
+
+def search_settings_values(ctx, c15_items):
+    """one settings object (and shallow copies of it) reused across publish calls while the myst_* values on it change:
+    every step must equal the same document published under a fresh settings object carrying the same values"""
+    import importlib.util
+    hists = c15_items.settings_value_histories(importlib.util.find_spec("linkify_it") is not None)
+    jobs, meta = [], []
+    for h in hists:
+        jobs.append([h])
+        meta.append(("hist", h))
+        for st in {json.dumps(x["values"], sort_keys=True, default=repr): x for x in h["steps"]}.values():
+            jobs.append([dict(h, steps=[dict(st, copy=False)])])
+            meta.append(("fresh", (h["field"], json.dumps(st["values"], sort_keys=True, default=repr))))
+    res = pool_map(_hist_job, jobs)
+    fresh = {m[1]: r[0] for m, r in zip(meta, res) if m[0] == "fresh"}
+    reported = set()
+    for m, r in zip(meta, res):
+        if m[0] != "hist":
+            continue
+        h = m[1]
+        ctx.count("level-histories:settings_values")
+        for pos, (st, out) in enumerate(zip(h["steps"], r)):
+            ctx.search_cases += 1
+            f = fresh[(h["field"], json.dumps(st["values"], sort_keys=True, default=repr))]
+            if pos:
+                ctx.nontriv(("settings-values", h["field"], pos, st["label"]))
+            if (out["doc"], out["warn"]) == (f["doc"], f["warn"]):
+                continue
+            stale = next((x["label"] for x in reversed(h["steps"][:pos]) if x["label"] != st["label"]), "nothing")
+            sig = f"settings-values:{h['field']}:{'copy' if st.get('copy') else 'same-object'}"
+            if sig in reported:
+                continue
+            reported.add(sig)
+            ctx.fail(sig, {"kind": "history", "history": [dict(h, steps=h["steps"][:pos + 1])]},
+                     f"one docutils settings object reused across publish calls: after myst_{h['field']} was changed on it (value #{stale} -> "
+                     f"#{st['label']}) the document is still parsed with an earlier configuration; differs from a fresh settings object with the same values",
+                     expected={"doc": f["doc"][-1200:], "warn": f["warn"][:500]}, observed={"doc": out["doc"][-1200:], "warn": out["warn"][:500]})
 
 
 def shrink_history(hist, fresh_out):
@@ -580,6 +619,15 @@ def replay(ctx, data):
     w = data.get("witness")
     if not w:
         print("replay file names no concrete input:", json.dumps(data.get("no_longer_checks"), default=repr)[:2000])
+        return 1
+    if w.get("kind") == "history" and w["history"] and w["history"][0].get("kind") == "settings_values":
+        j = w["history"][0]
+        res = pool_map(_hist_job, [[j], [dict(j, steps=[dict(j["steps"][-1], copy=False)])]], procs=2)
+        later, fresh = res[0][-1], res[1][0]
+        if (later["doc"], later["warn"]) == (fresh["doc"], fresh["warn"]):
+            print("replay: the last publish call gives the same output as with a fresh settings object (property holds on this input)")
+            return 0
+        print("replay: the last publish call differs from a fresh settings object with the same values:", diff_signature(fresh, later))
         return 1
     if w.get("kind") == "history" and w["history"] and w["history"][0].get("kind") in ("md_reuse", "shared_settings"):
         j = w["history"][0]
